@@ -20,7 +20,10 @@ def main():
         try:
             subprocess.check_call(['rsync', '-a', '--exclude', 'target', '--exclude', '.git', '/repo/', tmp + '/'])
             for (path, old, new) in m['edits']:
-                p = os.path.join(tmp, path); t = open(p).read()
+                p = os.path.join(tmp, path)
+                if old is None:
+                    open(p, 'w').write(new); continue       # a new file
+                t = open(p).read()
                 if t.count(old) < 1:
                     print('STALE  %-6s %s: anchor text not found in %s' % (m['prop'], m['name'], path)); bad += 1; break
                 open(p, 'w').write(t.replace(old, new, 1))
